@@ -107,7 +107,7 @@ def spec(fn):
     specrt.install_vocabulary(fn.__globals__)
     # the run-time version has lazy implication: implies(a, b) -> ((not a) or b)
     import copy
-    rt_tree = specrt.LazyImplies().visit(copy.deepcopy(tree))
+    rt_tree = specrt.FloatEq().visit(specrt.LazyImplies().visit(copy.deepcopy(tree)))
     rt_tree.body[0].decorator_list = []
     ast.fix_missing_locations(rt_tree)
     code = compile(rt_tree, '<spec %s>' % fn.__name__, 'exec')
